@@ -1157,3 +1157,153 @@ Proof.
       exists (N.to_nat (ci - first_of (store l))). split; [reflexivity|].
       unfold abs. rewrite H. cbn [ll_base]. pose proof (first_pos _ (ri_store rw l HI)). lia.
 Qed.
+
+(* ================================================================== *)
+(* Part 4. The consistency check of handle_append_entries               *)
+(* ================================================================== *)
+Lemma find_conflict_prefix_match L ents : forall j,
+  contiguous_from j ents -> 0 < j ->
+  forall k e, nth_error ents k = Some e ->
+    (ll_find_conflict L ents = 0 \/ j + N.of_nat k < ll_find_conflict L ents) ->
+    ll_match L (e_index e) (e_term e) = true.
+Proof.
+  induction ents as [|e0 rest IH]; intros j Hc Hj k e Hk Hci; [destruct k; discriminate|].
+  destruct Hc as [He Hc]. cbn [ll_find_conflict] in Hci.
+  destruct (ll_match L (e_index e0) (e_term e0)) eqn:Em.
+  - destruct k as [|k]; cbn [nth_error] in Hk.
+    + inversion Hk; subst. exact Em.
+    + apply (IH (j + 1) Hc ltac:(lia) k e Hk). destruct Hci as [Hci|Hci]; [left; exact Hci|right; lia].
+  - exfalso. destruct Hci as [Hci|Hci]; lia.
+Qed.
+
+Lemma ll_match_get L i t :
+  ll_match L i t = true -> t <> 0 -> ll_base L < i ->
+  exists e', ll_get L i = Some e' /\ e_term e' = t.
+Proof.
+  intros Hm Ht Hb. pose proof (ll_match_in_range L i t Hm Ht) as Hr.
+  unfold ll_match, ll_term in Hm.
+  destruct ((i <? ll_base L) || (ll_last L <? i)) eqn:E; [cbn in Hm; lia|].
+  destruct (i =? ll_base L) eqn:E2; [lia|].
+  destruct (ll_get L i) as [e'|]; cbn in Hm; [exists e'; split; [reflexivity|lia]|lia].
+Qed.
+
+Lemma ll_get_append_at L e0 t k :
+  ll_base L < e_index e0 -> e_index e0 <= ll_last L + 1 ->
+  ll_get (ll_append L (e0 :: t)) (e_index e0 + N.of_nat k) = nth_error (e0 :: t) k.
+Proof.
+  intros H1 H2. unfold ll_get, ll_append, ll_last in *. cbn [ll_base ll_ents].
+  destruct (e_index e0 + N.of_nat k <=? ll_base L) eqn:E; [lia|].
+  rewrite nth_error_app2; rewrite firstn_length; [|lia]. f_equal. lia.
+Qed.
+
+(* the three ways handle_append_entries answers; an acceptance of (2) is the consistency
+   check: the follower's log has term m_log_term at m_index, afterwards every message entry
+   has a log entry with its index and term, and from the first conflicting index on the log
+   holds exactly the message's entries *)
+Theorem append_check rw r m r' :
+  handle_append_entries r m = Ok r' -> LI rw r ->
+  contiguous_from (m_index m + 1) (m_entries m) -> nz_terms (m_entries m) ->
+  (m_index m <= last_index (r_log r) \/ m_log_term m <> 0) ->
+  m_index m + N.of_nat (length (m_entries m)) < u64_max ->
+  let L := abs (r_log r) in
+  let i := m_index m in
+  let lastnew := m_index m + N.of_nat (length (m_entries m)) in
+  exists resp, r_msgs r' = r_msgs r ++ [resp] /\ m_type resp = MsgAppendResponse /\
+  ( (* (0) a snapshot was requested: the append is not looked at *)
+    (r_pending_request_snapshot r <> INVALID_INDEX /\ r_log r' = r_log r /\ m_reject resp = true)
+    \/ (* (1) stale: everything up to the commit index is known to match *)
+    (r_pending_request_snapshot r = INVALID_INDEX /\ i < committed (r_log r) /\ r_log r' = r_log r
+     /\ m_reject resp = false /\ m_index resp = committed (r_log r))
+    \/ (* (2) accepted *)
+    (r_pending_request_snapshot r = INVALID_INDEX /\ committed (r_log r) <= i
+     /\ ll_term L i = SOk (m_log_term m)
+     /\ m_reject resp = false /\ m_index resp = lastnew
+     /\ abs (r_log r') = ll_maybe_append L i (m_entries m)
+     /\ committed (r_log r') = N.max (committed (r_log r)) (N.min (m_commit m) lastnew)
+     /\ (forall k e, nth_error (m_entries m) k = Some e ->
+           exists e', ll_get (abs (r_log r')) (i + 1 + N.of_nat k) = Some e'
+                      /\ e_term e' = e_term e /\ e_index e' = e_index e)
+     /\ (forall k e, nth_error (m_entries m) k = Some e ->
+           ll_find_conflict L (m_entries m) <> 0 ->
+           ll_find_conflict L (m_entries m) <= i + 1 + N.of_nat k ->
+           ll_get (abs (r_log r')) (i + 1 + N.of_nat k) = Some e))
+    \/ (* (3) rejected: no such term at m_index *)
+    (r_pending_request_snapshot r = INVALID_INDEX /\ committed (r_log r) <= i
+     /\ ll_term L i <> SOk (m_log_term m) /\ r_log r' = r_log r
+     /\ m_reject resp = true /\ m_index resp = i) ).
+Proof.
+  intros H HI Hc Hnz Hit Hb L i lastnew. unfold handle_append_entries in H.
+  rewrite (abs_last rw _ HI) in Hit. fold L in Hit.
+  destruct (negb (r_pending_request_snapshot r =? INVALID_INDEX)) eqn:Ep.
+  { apply negb_true_iff, N.eqb_neq in Ep. unfold send_request_snapshot in H.
+    inv_bind H. destruct x; [|discriminate].
+    destruct (send_exact _ _ _ H) as (m' & -> & Ty & _ & _ & _ & _ & Rj).
+    exists m'. split; [reflexivity|]. split; [exact Ty|]. left. auto. }
+  apply negb_false_iff, N.eqb_eq in Ep.
+  destruct (m_index m <? committed (r_log r)) eqn:Elt.
+  { apply N.ltb_lt in Elt. destruct (send_exact _ _ _ H) as (m' & -> & Ty & _ & _ & Ix & _ & Rj).
+    exists m'. split; [reflexivity|]. split; [exact Ty|]. right; left. splits; auto. }
+  apply N.ltb_ge in Elt. inv_bind H. destruct x as [l' res].
+  destruct (ll_match L i (m_log_term m)) eqn:Em.
+  - (* accepted *)
+    remember (ll_find_conflict L (m_entries m)) as ci eqn:Eci.
+    assert (Hci : ci = 0 \/ committed (r_log r) < ci).
+    { destruct (N.eq_dec ci 0) as [Hz|Hz]; [left; exact Hz|]. right.
+      destruct (N.lt_ge_cases (committed (r_log r)) ci) as [Hlt|Hge]; [exact Hlt|]. exfalso.
+      rewrite (maybe_append_fatal rw _ _ _ _ _ HI Em) in Hx; [discriminate|]. fold L. rewrite <- Eci. lia. }
+    destruct (maybe_append_ok rw _ _ _ (m_commit m) _ HI Hc Hnz Hit Hb Em ltac:(fold L; rewrite <- Eci; exact Hci))
+      as (l2 & Hm2 & Hr & Habs & Hcm & _).
+    rewrite Hx in Hm2. inversion Hm2; subst l2 res. clear Hm2.
+    destruct (send_exact _ _ _ H) as (m' & Er' & Ty & _ & _ & Ix & _ & Rj).
+    assert (Elog : r_log r' = l') by (rewrite Er'; reflexivity).
+    assert (Emsg : r_msgs r' = r_msgs r ++ [m']) by (rewrite Er'; reflexivity).
+    clear Er' H. rewrite Elog.
+    exists m'. split; [exact Emsg|]. split; [exact Ty|]. right; right; left.
+    assert (Hterm : ll_term L i = SOk (m_log_term m)).
+    { unfold ll_match in Em. destruct (ll_term L i) as [t'|]; cbn in Em; [f_equal; lia|discriminate]. }
+    assert (Hil : i <= ll_last L).
+    { destruct Hit as [Hit|Hit]; [exact Hit|]. apply (ll_match_in_range _ _ _ Em Hit). }
+    pose proof (base_le_committed rw _ HI) as Hbc. fold L in Hbc.
+    fold L in Habs. splits; auto.
+    + (* every message entry has a log entry with its index and term *)
+      intros k e Hk. unfold ll_maybe_append in Habs. rewrite <- Eci in Habs.
+      assert (Hidx : e_index e = i + 1 + N.of_nat k) by (apply (contig_nth _ _ _ _ Hc Hk)).
+      assert (Hte : e_term e <> 0) by (unfold nz_terms in Hnz; rewrite Forall_forall in Hnz; apply Hnz; eapply nth_error_In; exact Hk).
+      destruct (ci =? 0) eqn:E0.
+      * rewrite Habs. apply N.eqb_eq in E0.
+        pose proof (find_conflict_prefix_match L _ _ Hc ltac:(lia) k e Hk ltac:(left; congruence)) as Hme.
+        destruct (ll_match_get L _ _ Hme Hte ltac:(lia)) as (e' & Hg & Ht').
+        exists e'. rewrite <- Hidx. split; [exact Hg|]. split; [exact Ht'|].
+        apply (ll_get_index L); [exact (abs_wf rw _ HI)|exact Hg].
+      * apply N.eqb_neq in E0. destruct Hci as [Hci|Hci]; [lia|].
+        destruct (find_conflict_props L _ (i + 1) Hc Hnz ltac:(lia) ltac:(lia))
+          as [[Hz _]|(_ & F1 & F2 & F3 & e1 & r1 & Hsk & Hi1)]; rewrite <- Eci in *; [lia|].
+        unfold i in Hsk. rewrite Hsk in Habs. rewrite Habs. fold i in Hsk.
+        destruct (N.lt_ge_cases (i + 1 + N.of_nat k) ci) as [Hlt|Hge].
+        -- rewrite ll_get_append_below by lia.
+           pose proof (find_conflict_prefix_match L _ _ Hc ltac:(lia) k e Hk ltac:(right; rewrite <- Eci; lia)) as Hme.
+           destruct (ll_match_get L _ _ Hme Hte ltac:(lia)) as (e' & Hg & Ht').
+           exists e'. rewrite <- Hidx. split; [exact Hg|]. split; [exact Ht'|].
+           apply (ll_get_index L); [exact (abs_wf rw _ HI)|exact Hg].
+        -- exists e. split; [|split; reflexivity].
+           replace (i + 1 + N.of_nat k) with (e_index e1 + N.of_nat (k - N.to_nat (ci - (i + 1)))) by lia.
+           rewrite ll_get_append_at by lia. rewrite <- Hsk, nth_error_skipn'.
+           replace (N.to_nat (ci - (i + 1)) + (k - N.to_nat (ci - (i + 1))))%nat with k by lia. exact Hk.
+    + (* from the first conflict on: exactly the message's entries *)
+      intros k e Hk Hn0 Hge. unfold ll_maybe_append in Habs. rewrite <- Eci in *.
+      destruct (ci =? 0) eqn:E0; [apply N.eqb_eq in E0; lia|].
+      destruct Hci as [Hci|Hci]; [lia|].
+      destruct (find_conflict_props L _ (i + 1) Hc Hnz ltac:(lia) ltac:(lia))
+        as [[Hz _]|(_ & F1 & F2 & F3 & e1 & r1 & Hsk & Hi1)]; rewrite <- Eci in *; [lia|].
+      unfold i in Hsk. rewrite Hsk in Habs. rewrite Habs. fold i in Hsk.
+      replace (i + 1 + N.of_nat k) with (e_index e1 + N.of_nat (k - N.to_nat (ci - (i + 1)))) by lia.
+      rewrite ll_get_append_at by lia. rewrite <- Hsk, nth_error_skipn'.
+      replace (N.to_nat (ci - (i + 1)) + (k - N.to_nat (ci - (i + 1))))%nat with k by lia. exact Hk.
+  - (* rejected *)
+    rewrite (maybe_append_reject rw _ _ _ _ _ HI Em) in Hx. inversion Hx; subst l' res. clear Hx.
+    inv_bind H. destruct x as [hi [ht|]]; [|discriminate].
+    destruct (send_exact _ _ _ H) as (m' & -> & Ty & _ & _ & Ix & _ & Rj).
+    exists m'. split; [reflexivity|]. split; [exact Ty|]. right; right; right. cbn [r_log].
+    splits; auto.
+    intros C. unfold ll_match in Em. fold L in C. rewrite C in Em. cbn in Em. lia.
+Qed.
